@@ -1006,6 +1006,8 @@ func (rs *RelationService) MarkDeleted(tableName string, rowID uint32) (WALBatch
 		cellID: cell.key,
 	})
 
+	rs.fs.incrLSN()
+
 	return walLogs, nil
 }
 
